@@ -36,8 +36,13 @@ def main():
         if os.path.abspath(diff) != os.path.join(dst, "patch.diff"):
             shutil.copy(diff, os.path.join(dst, "patch.diff"))
             for f in glob.glob(os.path.join(src, name + ".*")) + glob.glob(os.path.join(src, name + "-*")) + glob.glob(os.path.join(src, name + "_*")):
-                if not f.endswith(".diff"):
-                    shutil.copy(f, os.path.join(dst, "demonstration" + os.path.basename(f)[len(name):]))
+                if f.endswith(".diff"):
+                    continue
+                target = os.path.join(dst, "demonstration" + os.path.basename(f)[len(name):])
+                if os.path.isdir(f):
+                    shutil.copytree(f, target, dirs_exist_ok=True)
+                else:
+                    shutil.copy(f, target)
         rc, out = sh(["git", "-C", REPO, "apply", os.path.join(dst, "patch.diff")])
         if rc != 0:
             print(name, "APPLY FAILED", out); continue
